@@ -2,6 +2,7 @@
 # usage: run_all.sh [ids...]   runs the quick checks one after the other and prints one summary line each
 cd /verif
 IDS="$@"
+bin/vcgo bindings --check | tail -1
 [ -z "$IDS" ] && IDS=$(ls props | sed 's/.json//' | tr '\n' ' ')
 for id in $IDS; do
   s=$(date +%s)
